@@ -339,12 +339,13 @@ def header_fields(F, b, v, parent):
     for x in ("header",):
         e = vf.def_value(v, b, x)
         if e is not None and e[0] == "A":
+            # parameters are the only named roots: local variable names must not matter
             roots = [(("P", i), parent.local_name(i)) for i in range(1, parent.argc + 1)]
-            for n in ("data2", "data3"):
-                d = vf.def_value(v, b, n)
-                if d is not None:
-                    roots.append((d, n))
-            return {k: norm(vf.render(val, parent, roots, short=True, vfx={b.key: v})) for (k, val) in e[3]}
+            def n2(t):
+                # an empty-slice literal is a promoted constant in optimised MIR and a plain `[]` before promotion
+                t = re.sub(r"k\([^()]*(?:\([^()]*\)[^()]*)*promoted\[\d+\]\)", "<empty>", t)
+                return t.replace("=> [] |", "=> <empty> |").replace("=> []}", "=> <empty>}")
+            return {k: n2(norm(vf.render(val, parent, roots, short=True, vfx={b.key: v}))) for (k, val) in e[3]}
     return None
 
 
